@@ -45,11 +45,14 @@ def gen(rng, knobs):
     k = rng.randint(2, 4)
     h = histgen.Hist(rng, nauthors=3)
     steps = []
-    n = rng.randint(1, 12)
+    soak = rng.random() < 0.02
+    # (soak: one long process lifetime -- hundreds of announcements over the same connections, so that whatever
+    #  a worker keeps per connection (buffers, counters, offsets) goes through its thresholds)
+    n = rng.randint(1, 12) if not soak else rng.choice([140, 200, 300])
     for i in range(n):
         ev = h.regular(tags=[["t", rng.choice(["x", "y"])]])
-        steps.append(["add", rng.randrange(k), ev])
-        c = rng.random()
+        steps.append(["add", rng.randrange(k) if not soak or rng.random() < 0.1 else 0, ev])
+        c = rng.random() * (8 if soak else 1)
         if c < 0.25:
             steps.append(["barrier"])
         elif c < 0.3:
@@ -63,7 +66,9 @@ def gen(rng, knobs):
                             {"authors": [evgen.AUTHORS[rng.randrange(3)].pub]}, {"kinds": [2]}])
             subs.append([w, "w%d_%d" % (w, j), f])
     return {"backend": backend, "workers": k, "steps": steps, "subs": subs,
-            "style": rng.choice(["random", "random", "random", "bytes", "whole", "aligned"]),
+            **({"step_cap": 800000} if soak else {}),
+            "style": rng.choice(["random", "random", "random", "bytes", "whole", "aligned"]) if not soak
+            else rng.choice(["random", "random", "whole", "ids"]),
             "sched": {"tcp": rng.choice([0.2, 1.0, 5.0]), "writer": rng.choice([0.2, 1.0, 5.0]),
                       "sql": rng.choice([0.5, 1.0, 3.0]), "ready": rng.choice([1.0, 4.0])}}
 
